@@ -1108,6 +1108,41 @@ void rt_signal_check(struct sthr *me)
 
 /* ------------------------------------------------------------------ access hooks */
 
+/*
+ * Stacks. A store (plain or atomic) to the issuing thread's own stack is never
+ * buffered and, being invisible to everybody else until the frame is
+ * published, does not force the thread's store buffer out either. To keep
+ * x86-TSO store order observable-correct, any access by ANOTHER thread to an
+ * address inside a thread's stack first drains the owner's buffer (a drain at
+ * an arbitrary moment is always TSO-legal): nobody can then see a newer stack
+ * store without the owner's older buffered stores.
+ */
+static inline int on_own_stack(struct sthr *me, uintptr_t a)
+{
+	return a >= me->stk_lo && a < me->stk_hi;
+}
+
+static inline void foreign_stack_sync(struct sthr *me, uintptr_t a)
+{
+	struct sthr *o;
+	if (a - STACK_BASE < (uintptr_t) MAXT * STACK_SIZE) {
+		unsigned idx = (unsigned) ((a - STACK_BASE) / STACK_SIZE);
+		if (idx >= (unsigned) G.nthr)
+			return;
+		o = &G.thr[idx];
+		if (a < o->stk_lo || a >= o->stk_hi)
+			return;		/* guard page or the TLS area above the stack proper */
+	} else if (a >= G.thr[0].stk_lo && a < G.thr[0].stk_hi) {
+		o = &G.thr[0];
+	} else {
+		return;
+	}
+	if (o != me && o->sb_n) {
+		usim_probe("tso.foreign_stack_access_drained_owner");
+		rt_sb_drain_all(o);
+	}
+}
+
 static inline int plain_yield_draw(void)
 {
 	if (G.p_plain == 0)
@@ -1129,11 +1164,13 @@ static inline void plain_access(uintptr_t a, unsigned sz, int wr)
 		rt_signal_check(me);
 	if (plain_yield_draw())
 		rt_sched_point(Y_PLAIN);
+	if (G.tso)
+		foreign_stack_sync(me, a);
 	if (me->sb_n) {
-		if (wr)
-			rt_sb_drain_all(me);
-		else
+		if (!wr)
 			sb_drain_overlap(me, a, sz);
+		else if (!on_own_stack(me, a))
+			rt_sb_drain_all(me);
 	}
 }
 
@@ -1167,11 +1204,6 @@ void __tsan_func_exit(void) { }
 void __tsan_vptr_update(void **vptr, void *val) { (void) vptr; (void) val; }
 void __tsan_vptr_read(void **vptr) { (void) vptr; }
 
-static inline int on_own_stack(struct sthr *me, uintptr_t a)
-{
-	return a >= me->stk_lo && a < me->stk_hi;
-}
-
 static inline uint64_t atomic_load_common(uintptr_t a, unsigned sz)
 {
 	struct sthr *me = cur;
@@ -1184,6 +1216,8 @@ static inline uint64_t atomic_load_common(uintptr_t a, unsigned sz)
 	if (me->accs >= me->next_sig_acc)
 		rt_signal_check(me);
 	rt_sched_point(Y_ATOMIC_LD);
+	if (G.tso)
+		foreign_stack_sync(me, a);
 	for (i = me->sb_n - 1; i >= 0; i--) {
 		if (me->sb[i].addr == a && me->sb[i].size == sz) {
 			usim_probe("tso.forwarded_load");
@@ -1223,8 +1257,14 @@ static inline void atomic_store_common(uintptr_t a, uint64_t v, unsigned sz, int
 	if (me->accs >= me->next_sig_acc)
 		rt_signal_check(me);
 	rt_sched_point(Y_ATOMIC_ST);
-	if (!G.tso || G.quiet || mo == __ATOMIC_SEQ_CST || on_own_stack(me, a) ||
-	    G.solo_tid >= 0) {
+	if (G.tso)
+		foreign_stack_sync(me, a);
+	if (G.tso && !G.quiet && G.solo_tid < 0 && mo != __ATOMIC_SEQ_CST && on_own_stack(me, a)) {
+		/* own stack: performed at once, older buffered stores may stay buffered */
+		mem_store(a, v, sz);
+		return;
+	}
+	if (!G.tso || G.quiet || mo == __ATOMIC_SEQ_CST || G.solo_tid >= 0) {
 		rt_sb_drain_all(me);
 		mem_check(a, sz, 1);
 		mem_store(a, v, sz);
@@ -1249,6 +1289,8 @@ static inline void rmw_prologue(uintptr_t a, unsigned sz)
 	if (me->accs >= me->next_sig_acc)
 		rt_signal_check(me);
 	rt_sched_point(Y_RMW);
+	if (G.tso)
+		foreign_stack_sync(me, a);
 	rt_sb_drain_all(me);
 	mem_check(a, sz, 1);
 }
@@ -1322,11 +1364,13 @@ static inline void volatile_access(uintptr_t a, unsigned sz, int wr)
 	if (me->accs >= me->next_sig_acc)
 		rt_signal_check(me);
 	rt_sched_point(wr ? Y_ATOMIC_ST : Y_ATOMIC_LD);
+	if (G.tso)
+		foreign_stack_sync(me, a);
 	if (me->sb_n) {
-		if (wr)
-			rt_sb_drain_all(me);
-		else
+		if (!wr)
 			sb_drain_overlap(me, a, sz);
+		else if (!on_own_stack(me, a))
+			rt_sb_drain_all(me);
 	}
 }
 
@@ -1436,6 +1480,12 @@ static void *trampoline(void *arg)
 	sigdelset(&all, SIGFPE);
 	pthread_sigmask(SIG_SETMASK, &all, NULL);
 	park_self(me);
+	/*
+	 * glibc places the thread's static TLS block and descriptor at the top of
+	 * the stack we supplied: they are ordinary shared memory (reader counters
+	 * live there), not stack. Only what lies below this frame is stack.
+	 */
+	me->stk_hi = (uintptr_t) __builtin_frame_address(0) + 256;
 	ret = me->fn(me->arg);
 	thread_finish(me, ret);
 	return NULL;
